@@ -19,6 +19,19 @@ CHECKS = {
              "file. SQLite backend and float timestamps are outside the claim.",
         ref="DESIGN.md 4 C14",
     ),
+    "C05": dict(
+        text="Bounded model checking of the real chain machinery: ~620 (quick) / ~2000 (thorough) xonsh programs - every and/or/&&/|| "
+             "shape up to 3 operands, natural-precedence chains of 4-6 operands, six capture forms, both operand flavours "
+             "(valid / invalid Python text), @error_raise/@error_ignore placements, 2-stage pipelines - are compiled by the real parser "
+             "and transformer and executed symbolically through the real subproc_* helpers, run_subproc, cmds_to_specs, "
+             "CommandPipeline.end/_raise_subproc_error/__bool__/returncode and subproc_check_boolop, with every exit code an unbounded "
+             "symbolic integer and both raise flags symbolic; the executed-command log and the raised CalledProcessError must equal the "
+             "documented truth table on every path. Counterexamples are replayed in a real session with real callable aliases.",
+        note="Bounds: the generated program list (printed in evidence), exit codes unbounded. Stubs: SubprocSpec.run returns a model "
+             "process, pipeline fd/terminal/history plumbing is emptied (listed in evidence). Outside: process exit status of "
+             "`xonsh -c`/scripts, $LAST_RETURN_CODE. One known finding ($[..]/$(..) operands judged by value) is listed in known_findings.jsonl.",
+        ref="DESIGN.md 4 C05",
+    ),
 }
 
 NA = {
